@@ -632,22 +632,22 @@ pub fn roots(thorough: bool) -> Vec<Root> {
         for &s0 in &ss {
             let boundary = s0 >= 53;
             // fault exploration from every start
-            out.push(Root { v0, s0, with_stats: (v0 + s0) % 2 == 0, bound: if thorough && boundary { 3 } else { base.bound }, ..base.clone() });
+            out.push(Root { v0, s0, with_stats: (v0 + s0) % 2 == 0, bound: if thorough { if boundary { 4 } else { 3 } } else if boundary { 2 } else { 1 }, ..base.clone() });
             // next-volume listing shows 2 or 3 chunks
             if s0 >= 53 {
                 for np in [2usize, 3] {
-                    out.push(Root { v0, s0, next_present: np, ..base.clone() });
+                    out.push(Root { v0, s0, next_present: np, bound: if thorough { 3 } else { 2 }, ..base.clone() });
                 }
             }
             // stop signal at every point
             let stops: Vec<i64> = if thorough || boundary || v0 == 500 { (-1..=9).collect() } else { vec![-1, 0, 1, 3] };
             for k in stops {
-                out.push(Root { v0, s0, stop_at: Some(k), bound: if thorough { 1 } else { if boundary { 1 } else { 0 } }, ..base.clone() });
+                out.push(Root { v0, s0, stop_at: Some(k), bound: if thorough { 2 } else { 1 }, ..base.clone() });
             }
             // consumer dropped after k deliveries
             let drops: Vec<usize> = if thorough || boundary { (0..=5).collect() } else { vec![0, 1, 3] };
             for k in drops {
-                out.push(Root { v0, s0, drop_after: Some(k), bound: if thorough { 1 } else { 0 }, with_stats: k % 2 == 1, ..base.clone() });
+                out.push(Root { v0, s0, drop_after: Some(k), bound: if thorough { 2 } else { 1 }, with_stats: k % 2 == 1, ..base.clone() });
             }
             // timestamp regime: upload times around now (wait-estimate path runs)
             out.push(Root { v0, s0, regime: 1, bound: if thorough { 1 } else { 0 }, with_stats: true, ..base.clone() });
@@ -680,6 +680,7 @@ fn run_roots(ctx: &'static Ctx, sim: &Sim, list: &[(usize, Root)], st: &mut Stat
     let mut replays_identical = 0u64;
     for (ri, root) in list {
         let mut root_execs = 0u64;
+        let mut first_fp: Option<String> = None;
         let es = explore(
             root.bound,
             |ch| {
@@ -687,6 +688,9 @@ fn run_roots(ctx: &'static Ctx, sim: &Sim, list: &[(usize, Root)], st: &mut Stat
                 let o = execute(sim, root, ch);
                 end_case();
                 root_execs += 1;
+                if first_fp.is_none() {
+                    first_fp = Some(o.fingerprint());
+                }
                 // stash the observation for the visitor through the choices' owner: re-judge here
                 let outcome = judge(ctx, root, &o, st);
                 st.eval();
@@ -724,10 +728,18 @@ fn run_roots(ctx: &'static Ctx, sim: &Sim, list: &[(usize, Root)], st: &mut Stat
         let a = execute(sim, root, Choices::new(vec![], vec![]));
         let b = execute(sim, root, Choices::new(vec![], vec![]));
         if root.regime == 0 {
-            if a.fingerprint() != b.fingerprint() {
-                machinery(&format!("C18: same schedule, different observations for root {:?}:\n{}\n{}", root, a.fingerprint(), b.fingerprint()));
+            let f0 = first_fp.clone().unwrap_or_default();
+            if a.fingerprint() != b.fingerprint() || a.fingerprint() != f0 {
+                // the harness is deterministic for regime 0 (the unchanged tree replays identically for
+                // every root), so a difference means the library keeps state between poll_chunks calls
+                ctx.fail(
+                    "poll:same_schedule_different_observations_in_one_process",
+                    || format!("root {:?}: the default schedule executed three times in one process gave different observations:\n first  {}\n second {}\n third  {}", root, f0.chars().take(300).collect::<String>(), a.fingerprint().chars().take(300).collect::<String>(), b.fingerprint().chars().take(300).collect::<String>()),
+                    || json!({"root": root.json(), "choices": [], "note": "run the default schedule twice in one process"}),
+                );
+            } else {
+                replays_identical += 1;
             }
-            replays_identical += 1;
         }
     }
     (executions, points, replays_identical)
